@@ -9,7 +9,7 @@ from .. import gen, impl, oracle, progs, ser, stream
 
 ID = "C05"
 LEVEL = "proof"
-PROPS_MODULE = "SymmModel.Props.C05All6"
+PROPS_MODULE = "SymmModel.Props.C05All7"
 THEOREMS = [
     "SymmModel.C05.calcFuseGroupInfo_perm",
     "SymmModel.C05.fuseA_eq_fuseCore",
@@ -74,10 +74,13 @@ THEOREMS = [
     "SymmModel.C05.fuseInsert_eq_fuseConcat_multi",
     "SymmModel.C05.fuseA_concat_eq_insert",
     "SymmModel.C05.fuseF_concat_eq_insert",
-    "SymmModel.C05.fuse_elem_concat"
+    "SymmModel.C05.fuse_elem_concat",
+    "SymmModel.C05.conj_fuse_relation",
+    "SymmModel.C05.conj_fuse_sign",
+    "SymmModel.C05.conj_fuse_same_direction"
 ]
-LEAN_FILES = ["SymmModel.Props.C05", "SymmModel.Proofs.FuseLemmas", "SymmModel.Proofs.FuseBase", "SymmModel.Proofs.FuseAssoc", "SymmModel.Proofs.FuseTable", "SymmModel.Proofs.FusePlan", "SymmModel.Proofs.FuseWf", "SymmModel.Proofs.FuseSpec", "SymmModel.Proofs.FuseAddr", "SymmModel.Proofs.FuseIns", "SymmModel.Proofs.FuseOne", "SymmModel.Proofs.FuseInsert", "SymmModel.Proofs.FuseSem", "SymmModel.Proofs.FuseUnfuse", "SymmModel.Proofs.FuseRound", "SymmModel.Proofs.FuseAll", "SymmModel.Proofs.FuseElem", "SymmModel.Proofs.FuseConcat", "SymmModel.Proofs.FuseConcat2", "SymmModel.Proofs.FuseConcat3", "SymmModel.Props.C05b", "SymmModel.Props.C05c", "SymmModel.Props.C05All", "SymmModel.Proofs.FuseMultiAll", "SymmModel.Proofs.FuseMulti1", "SymmModel.Proofs.FuseMulti2", "SymmModel.Proofs.FuseMulti3", "SymmModel.Proofs.FuseMulti4", "SymmModel.Proofs.FuseMulti5", "SymmModel.Proofs.FuseMulti6", "SymmModel.Proofs.FuseMulti7", "SymmModel.Proofs.FuseMultiU", "SymmModel.Proofs.FuseMultiR1", "SymmModel.Proofs.FuseMultiR2", "SymmModel.Proofs.FuseMultiR3", "SymmModel.Proofs.FuseMultiR4", "SymmModel.Proofs.FuseMultiR5", "SymmModel.Proofs.FuseFermi1", "SymmModel.Proofs.FuseFermi2", "SymmModel.Proofs.FuseFermi3", "SymmModel.Proofs.FuseFermi4", "SymmModel.Proofs.FuseFermi5", "SymmModel.Proofs.FuseFermi6", "SymmModel.Proofs.FuseFermi7", "SymmModel.Props.C05d", "SymmModel.Props.C05All2", "SymmModel.Proofs.Fuse4Sign", "SymmModel.Proofs.Fuse4Sign2", "SymmModel.Proofs.Fuse4Round1", "SymmModel.Proofs.Fuse4Round2", "SymmModel.Proofs.Fuse4Round3", "SymmModel.Proofs.Fuse4Round4", "SymmModel.Proofs.Fuse4Round5", "SymmModel.Proofs.Fuse4Round6", "SymmModel.Proofs.Fuse5Cache", "SymmModel.Proofs.Fuse5Val", "SymmModel.Proofs.Fuse5Veq", "SymmModel.Proofs.Fuse5Conj1", "SymmModel.Proofs.Fuse5Conj2", "SymmModel.Proofs.Fuse5Conj3", "SymmModel.Proofs.Fuse5All", "SymmModel.Proofs.Fuse5All2", "SymmModel.Props.C05e", "SymmModel.Props.C05All3", "SymmModel.Proofs.Fuse6Parts", "SymmModel.Proofs.Fuse6Comm", "SymmModel.Proofs.Fuse6Sign", "SymmModel.Proofs.Fuse6Box", "SymmModel.Proofs.Fuse6Step", "SymmModel.Proofs.Fuse6Inst", "SymmModel.Proofs.Fuse6Order", "SymmModel.Proofs.Fuse6Fuse", "SymmModel.Proofs.Fuse6Fuse2", "SymmModel.Props.C05f", "SymmModel.Props.C05All4", "SymmModel.Proofs.Fuse7Nest", "SymmModel.Proofs.Fuse7Rec", "SymmModel.Proofs.Fuse7Shape", "SymmModel.Proofs.Fuse7Concat", "SymmModel.Props.C05g", "SymmModel.Props.C05All5", "SymmModel.Proofs.Fuse8Dec", "SymmModel.Proofs.Fuse8Link", "SymmModel.Proofs.Fuse8Region", "SymmModel.Proofs.Fuse8Eq", "SymmModel.Proofs.Fuse8Order", "SymmModel.Proofs.Fuse8ConjSign", "SymmModel.Props.C05h", "SymmModel.Props.C05All6"]
-PLANNED = ["exact sign relation of conj after fuse to conj before fuse for fermionic arrays (two sign lemmas proved, formula checked on examples", "abelian: commute)"]
+LEAN_FILES = ["SymmModel.Props.C05", "SymmModel.Proofs.FuseLemmas", "SymmModel.Proofs.FuseBase", "SymmModel.Proofs.FuseAssoc", "SymmModel.Proofs.FuseTable", "SymmModel.Proofs.FusePlan", "SymmModel.Proofs.FuseWf", "SymmModel.Proofs.FuseSpec", "SymmModel.Proofs.FuseAddr", "SymmModel.Proofs.FuseIns", "SymmModel.Proofs.FuseOne", "SymmModel.Proofs.FuseInsert", "SymmModel.Proofs.FuseSem", "SymmModel.Proofs.FuseUnfuse", "SymmModel.Proofs.FuseRound", "SymmModel.Proofs.FuseAll", "SymmModel.Proofs.FuseElem", "SymmModel.Proofs.FuseConcat", "SymmModel.Proofs.FuseConcat2", "SymmModel.Proofs.FuseConcat3", "SymmModel.Props.C05b", "SymmModel.Props.C05c", "SymmModel.Props.C05All", "SymmModel.Proofs.FuseMultiAll", "SymmModel.Proofs.FuseMulti1", "SymmModel.Proofs.FuseMulti2", "SymmModel.Proofs.FuseMulti3", "SymmModel.Proofs.FuseMulti4", "SymmModel.Proofs.FuseMulti5", "SymmModel.Proofs.FuseMulti6", "SymmModel.Proofs.FuseMulti7", "SymmModel.Proofs.FuseMultiU", "SymmModel.Proofs.FuseMultiR1", "SymmModel.Proofs.FuseMultiR2", "SymmModel.Proofs.FuseMultiR3", "SymmModel.Proofs.FuseMultiR4", "SymmModel.Proofs.FuseMultiR5", "SymmModel.Proofs.FuseFermi1", "SymmModel.Proofs.FuseFermi2", "SymmModel.Proofs.FuseFermi3", "SymmModel.Proofs.FuseFermi4", "SymmModel.Proofs.FuseFermi5", "SymmModel.Proofs.FuseFermi6", "SymmModel.Proofs.FuseFermi7", "SymmModel.Props.C05d", "SymmModel.Props.C05All2", "SymmModel.Proofs.Fuse4Sign", "SymmModel.Proofs.Fuse4Sign2", "SymmModel.Proofs.Fuse4Round1", "SymmModel.Proofs.Fuse4Round2", "SymmModel.Proofs.Fuse4Round3", "SymmModel.Proofs.Fuse4Round4", "SymmModel.Proofs.Fuse4Round5", "SymmModel.Proofs.Fuse4Round6", "SymmModel.Proofs.Fuse5Cache", "SymmModel.Proofs.Fuse5Val", "SymmModel.Proofs.Fuse5Veq", "SymmModel.Proofs.Fuse5Conj1", "SymmModel.Proofs.Fuse5Conj2", "SymmModel.Proofs.Fuse5Conj3", "SymmModel.Proofs.Fuse5All", "SymmModel.Proofs.Fuse5All2", "SymmModel.Props.C05e", "SymmModel.Props.C05All3", "SymmModel.Proofs.Fuse6Parts", "SymmModel.Proofs.Fuse6Comm", "SymmModel.Proofs.Fuse6Sign", "SymmModel.Proofs.Fuse6Box", "SymmModel.Proofs.Fuse6Step", "SymmModel.Proofs.Fuse6Inst", "SymmModel.Proofs.Fuse6Order", "SymmModel.Proofs.Fuse6Fuse", "SymmModel.Proofs.Fuse6Fuse2", "SymmModel.Props.C05f", "SymmModel.Props.C05All4", "SymmModel.Proofs.Fuse7Nest", "SymmModel.Proofs.Fuse7Rec", "SymmModel.Proofs.Fuse7Shape", "SymmModel.Proofs.Fuse7Concat", "SymmModel.Props.C05g", "SymmModel.Props.C05All5", "SymmModel.Proofs.Fuse8Dec", "SymmModel.Proofs.Fuse8Link", "SymmModel.Proofs.Fuse8Region", "SymmModel.Proofs.Fuse8Eq", "SymmModel.Proofs.Fuse8Order", "SymmModel.Proofs.Fuse8ConjSign", "SymmModel.Props.C05h", "SymmModel.Props.C05All6", "SymmModel.Proofs.Fuse9Sign", "SymmModel.Proofs.Fuse9Step", "SymmModel.Proofs.Fuse9Rel", "SymmModel.Proofs.Fuse9Fold", "SymmModel.Proofs.Fuse9Main", "SymmModel.Proofs.Fuse9Cor", "SymmModel.Props.C05i", "SymmModel.Props.C05All7"]
+PLANNED = []
 RULE = ("random abelian and fermionic arrays (all symmetries, sparse, pending signs, odd charge), one or more "
         "disjoint ordered axis groups (single-axis, non-adjacent, permuted, empty, second-level fusing of already "
         "fused axes), strategies insert/concat; compared with the Lean model (value view + sub-index tables), and on "
